@@ -128,6 +128,25 @@ def check_properties_file(pid, work):
     return False, len(thms), done, assumptions, out
 
 
+def coqchk(pid, work):
+    """Independent re-check of Properties/<pid>.vo and everything it depends on (thorough tier).
+    Cached by the hash of all .v sources (coqchk takes minutes)."""
+    h = hashlib.sha256()
+    for f in coq_files():
+        h.update(f.encode()); h.update(open(os.path.join(COQ, f), "rb").read())
+    key = h.hexdigest()[:16]
+    cache = os.path.join(VERIF, "work", "coqchk_%s_%s.txt" % (pid, key))
+    if os.path.exists(cache):
+        return open(cache).read()
+    with CoqLock():
+        rc, out, dt = sh(["coqchk", "-silent", "-o", "-Q", ".", "SygmaV", "SygmaV.Properties." + pid], 5400, cwd=COQ)
+    txt = "coqchk rc=%d (%.0fs)\n%s" % (rc, dt, out[-4000:])
+    if rc == 0:
+        with open(cache, "w") as f:
+            f.write(txt)
+    return txt
+
+
 def parse_R(out):
     """Parse `R = (fails, hist)` printed by Print R.  Returns (fails, hist) as lists of int pairs."""
     m = re.search(r"R\s*=\s*(.*?)\n\s*:\s", out, re.S)
@@ -394,6 +413,17 @@ def main():
         lines.append("VIOLATION property=%s replay=%s no-failing-input-found" % (pid, path))
         violations = 1
 
+    # 5b. thorough: independent checker
+    chk = None
+    if tier == "thorough" and make_ok and not a.replay:
+        chk = coqchk(pid, work)
+        if not chk.startswith("coqchk rc=0"):
+            broken.append("coqchk failed: " + chk[-1500:])
+            if not violations:
+                path = write_replay(pid, "broken_%d.jsonl" % seed, [], "coqchk rejects Properties/%s.vo:\n%s" % (pid, chk))
+                lines.append("VIOLATION property=%s replay=%s no-failing-input-found" % (pid, path))
+                violations = 1
+
     # 6. evidence
     stats = res["stats"] if res else {}
     tb = prop.get("trusted_base", [])
@@ -421,6 +451,7 @@ def main():
         "broken": broken,
         "extra_search_evaluations": searched,
         "repo": REPO,
+        "coqchk": chk,
     }
     evd = {
         "property_id": pid, "tier": tier, "seed": seed, "level": "proof", "coverage": coverage,
